@@ -403,7 +403,10 @@ pub fn run(cli: Cli) -> ! {
         for (ni, name) in names.iter().enumerate() {
             for (si, sid) in server_ids.into_iter().enumerate() {
                 let secret = &secrets_by_sid[si][ni % secrets_by_sid[si].len()];
-                let adapter = MojangAdapter::default().with_server_id(sid.to_string());
+                // the adapter as the application builds it from its configuration
+                let adapter = passage::adapter::authentication::DynAuthenticationAdapter::from_config(passage::config::AuthenticationAdapter::Mojang(passage::config::MojangAuthentication { server_id: sid.to_string() }))
+                    .await
+                    .unwrap_or_else(|e| common::machinery(&format!("from_config(authentication): {e}")));
                 let mut all = sid.as_bytes().to_vec();
                 all.extend_from_slice(secret);
                 all.extend_from_slice(&pubkey);
